@@ -21,9 +21,18 @@ class SetAlg:
         # a region = tuple of booleans (membership in each atom), not all False
         self.regions = [r for r in itertools.product([False, True], repeat=n) if any(r) and (feasible is None or feasible(r))]
 
+    @property
+    def counting(self):
+        """with few regions a world says how many elements a region holds (0, 1, 2 = two or more), so `len(S) > 1`, `len(S) == 1` are decided too"""
+        return len(self.regions) <= 7
+
     def worlds(self):
-        for bits in itertools.product([False, True], repeat=len(self.regions)):
+        for bits in itertools.product([0, 1, 2] if self.counting else [False, True], repeat=len(self.regions)):
             yield dict(zip(self.regions, bits))
+
+    def card(self, t, w):
+        """number of elements of the set expression, capped at 2 (counting worlds only)"""
+        return min(2, sum(int(w[r]) for r in self.sets(t)))
 
     def sets(self, t):
         """-> frozenset of regions covered by the set expression t"""
@@ -68,9 +77,14 @@ class SetAlg:
                 s_ = l[2][0]
                 c = r[1]
                 ne = self.nonempty(s_, w)
-                table = {(">", 0): ne, ("!=", 0): ne, (">=", 1): ne, ("==", 0): not ne, ("<=", 0): not ne, ("<", 1): not ne}
+                table = {(">", 0): ne, ("!=", 0): ne, (">=", 1): ne, ("==", 0): not ne, ("<=", 0): not ne, ("<", 1): not ne, (">=", 0): True, ("<", 0): False}
                 if (op, c) in table:
                     return table[(op, c)]
+                if self.counting and 0 <= c <= 2:
+                    k_ = self.card(s_, w)          # 0, 1, 2 (= two or more)
+                    exact = {(">", 1): k_ == 2, (">=", 2): k_ == 2, ("<", 2): k_ < 2, ("<=", 1): k_ < 2, ("==", 1): k_ == 1, ("!=", 1): k_ != 1}
+                    if (op, c) in exact:
+                        return exact[(op, c)]
                 raise Inconclusive("cardinality test `len(.) %s %s` is beyond empty / non-empty" % (op, c))
             if op in ("<=", ">=", "<", ">", "==", "!="):
                 a, b = self.sets(l), self.sets(r)
